@@ -2,6 +2,9 @@ mod exec;
 mod gen;
 mod hist;
 mod oracle;
+mod oracle_c18;
+mod oracle_diff;
+mod oracle_est;
 mod oracle_p;
 mod oracle_ttl;
 mod plan;
